@@ -80,6 +80,9 @@ func Run(cfg hx.Config) (*hx.Meta, error) {
 
 	callsites(cfg, meta, cat, r)
 	functional(cfg, meta, cat)
+	if err := inproc(cfg, meta, r); err != nil {
+		return nil, err
+	}
 	return meta, nil
 }
 
